@@ -181,7 +181,11 @@ func gen(out *vc.Out, r *vc.Rand, thorough bool) {
 	// A. routing: every facade method alone, on keys around every prefix of the tables
 	keys := routeKeys()
 	for _, key := range keys {
-		for cfgi := 0; cfgi < 4; cfgi++ {
+		cfgis := []int{3, r.Intn(3)}
+		if thorough {
+			cfgis = []int{0, 1, 2, 3}
+		}
+		for _, cfgi := range cfgis {
 			pe, sh := cfgi&1 == 1, cfgi&2 == 2
 			for _, op := range routeOps {
 				variants := []int{r.Intn(4)}
